@@ -194,6 +194,11 @@ type Case struct {
 	MetaRemovals []int  `json:"meta_removals,omitempty"`
 	Method       string `json:"method,omitempty"` // GET | POST | initiated
 	NoSession    bool   `json:"no_session,omitempty"`
+	// idp: what the registered SP offers as assertion consumer services ("" = as in the maximal metadata | artifact-only |
+	// soap-only | unknown-only | none) and how the request selects one ("" = as in the maximal request | none | index-only
+	// | url-only | index-unknown | url-unknown | both-disagree)
+	MetaBindings string `json:"meta_bindings,omitempty"`
+	ReqSelect    string `json:"req_select,omitempty"`
 }
 
 // ---------------------------------------------------------------- guarded calls and the error contract
@@ -625,6 +630,23 @@ func newIDP(md *saml.EntityDescriptor, session bool) *saml.IdentityProvider {
 func checkIDP(c Case) pbt.Result {
 	res := pbt.Result{NonTrivial: true, Classes: []string{"idp", "idp:" + c.Method}}
 	metaEl := maximalSPMetadata(spkit.SPEntity, spkit.SPACS)
+	if c.MetaBindings != "" {
+		res.Classes = append(res.Classes, "idp:acs-bindings:"+c.MetaBindings)
+		for _, acs := range metaEl.FindElements("//AssertionConsumerService") {
+			switch c.MetaBindings {
+			case "artifact-only":
+				acs.CreateAttr("Binding", saml.HTTPArtifactBinding)
+			case "soap-only":
+				acs.CreateAttr("Binding", saml.SOAPBinding)
+			case "unknown-only":
+				acs.CreateAttr("Binding", "urn:example:some-other-binding")
+			case "none":
+				if p := acs.Parent(); p != nil {
+					p.RemoveChild(acs)
+				}
+			}
+		}
+	}
 	removedMeta := removeParts(metaEl, c.MetaRemovals)
 	var md *saml.EntityDescriptor
 	{
@@ -643,6 +665,26 @@ func checkIDP(c Case) pbt.Result {
 	}
 	idp := newIDP(md, !c.NoSession)
 	reqEl := maximalAuthnRequest(spkit.IDPSSO, spkit.SPEntity, spkit.SPACS)
+	if c.ReqSelect != "" {
+		res.Classes = append(res.Classes, "idp:request-selects:"+c.ReqSelect)
+		reqEl.RemoveAttr("AssertionConsumerServiceURL")
+		reqEl.RemoveAttr("AssertionConsumerServiceIndex")
+		reqEl.RemoveAttr("ProtocolBinding")
+		switch c.ReqSelect {
+		case "index-only":
+			reqEl.CreateAttr("AssertionConsumerServiceIndex", "1")
+		case "url-only":
+			reqEl.CreateAttr("AssertionConsumerServiceURL", spkit.SPACS)
+		case "index-unknown":
+			reqEl.CreateAttr("AssertionConsumerServiceIndex", "77")
+		case "url-unknown":
+			reqEl.CreateAttr("AssertionConsumerServiceURL", "https://elsewhere.example.org/acs")
+		case "both-disagree":
+			reqEl.CreateAttr("AssertionConsumerServiceIndex", "77")
+			reqEl.CreateAttr("AssertionConsumerServiceURL", spkit.SPACS)
+			reqEl.CreateAttr("ProtocolBinding", saml.HTTPArtifactBinding)
+		}
+	}
 	removedReq := removeParts(reqEl, c.ReqRemovals)
 	reqXML := forge.Bytes(reqEl)
 	w := httptest.NewRecorder()
@@ -1448,7 +1490,8 @@ func gen1(t *rapid.T) Case {
 		return Case{Kind: "artifact", Faults: rapid.SliceOfN(rapid.SampledFrom(faults), 1, 5).Draw(t, "faults"), Trust: genTrust(t), ArtMeta: rapid.SampledFrom(artMetas).Draw(t, "artmeta")}
 	case 11, 12:
 		return Case{Kind: "idp", Method: rapid.SampledFrom([]string{"GET", "POST", "initiated"}).Draw(t, "method"), NoSession: rapid.IntRange(0, 4).Draw(t, "nosess") == 0,
-			ReqRemovals: genRemovals(t, "reqrm", nParts.req), MetaRemovals: genRemovals(t, "metarm", nParts.spmeta)}
+			ReqRemovals: genRemovals(t, "reqrm", nParts.req), MetaRemovals: genRemovals(t, "metarm", nParts.spmeta),
+			MetaBindings: rapid.SampledFrom(append([]string{"", "", ""}, metaBindings...)).Draw(t, "metabindings"), ReqSelect: rapid.SampledFrom(append([]string{"", "", ""}, reqSelects...)).Draw(t, "reqselect")}
 	default:
 		api := rapid.SampledFrom([]string{"metadata", "unmarshal-entity", "unmarshal-entities", "put-service"}).Draw(t, "api")
 		n := nParts.idpmeta
@@ -1570,7 +1613,19 @@ func enumRemovals(tier string, emit func(Case)) {
 	}
 }
 
+var metaBindings = []string{"artifact-only", "soap-only", "unknown-only", "none"}
+var reqSelects = []string{"none", "index-only", "url-only", "index-unknown", "url-unknown", "both-disagree"}
+
 func enumIDP(tier string, emit func(Case)) {
+	for _, mb := range append([]string{""}, metaBindings...) {
+		for _, rs := range append([]string{""}, reqSelects...) {
+			for _, m := range []string{"GET", "POST", "initiated"} {
+				for _, nosess := range []bool{false, true} {
+					emit(Case{Kind: "idp", Method: m, MetaBindings: mb, ReqSelect: rs, NoSession: nosess})
+				}
+			}
+		}
+	}
 	for _, m := range []string{"GET", "POST", "initiated"} {
 		emit(Case{Kind: "idp", Method: m})
 		for i := 0; i < nParts.req; i++ {
@@ -1669,7 +1724,7 @@ var prop = &pbt.Prop[Case]{
 	Rule: "cases: (resign) a maximal valid Response with every optional element/attribute, any subset of its parts removed (every subset of size <= 2 enumerated), then validly re-signed with the trusted IdP key in each layout (Response / Assertion / both / ArtifactResponse), optionally encrypted to the SP, through ParseXMLResponse / ParseResponse(POST) / ParseXMLArtifactResponse, followed by 0-3 edits of the parts of the ds:Signature elements after signing (remove / empty / blank / duplicate / replace text; every part x every mode enumerated) under every trust configuration of the SP (metadata, pinned certificate, fingerprint) and every kind of key material it may hold (RSA, none, key without certificate, ECDSA); " +
 		"(encplain) degenerate and random plaintexts inside a well-formed EncryptedAssertion addressed to the SP; (bytes) random, dictionary-built and fixture-spliced bytes under raw / base64 / deflate / broken framings incl. deflate bombs of 1..64 MiB (raw DEFLATE and the zlib / gzip containers) through every consuming API " +
 		"(response, artifact response, logout form/redirect/request, AuthnRequest GET/POST + Validate, samlsp.ParseMetadata, xml.Unmarshal of EntityDescriptor/EntitiesDescriptor, PUT /services/{id} of samlidp); (fixture) repository fixtures under structure-aware mutation (delete / duplicate / swap / wrap / attribute edits / depth <= 500 / width <= 5000 / root rename); " +
-		"(artifact) generated sequences of resolver behaviours (dial error, non-200, truncated body, SOAP fault, wrong envelope, garbage ...); (idp) a maximal AuthnRequest and maximal registered SP metadata with parts removed through ServeSSO GET/POST and ServeIDPInitiated; (metadata) maximal IdP/SP metadata with parts removed. " +
+		"(artifact) generated sequences of resolver behaviours (dial error, non-200, truncated body, SOAP fault, wrong envelope, garbage ...); (idp) a maximal AuthnRequest and maximal registered SP metadata with parts removed, the SP offering browser bindings / only other bindings / no consumer service and the request selecting one by index, URL, both or not at all, through ServeSSO GET/POST and ServeIDPInitiated; (metadata) maximal IdP/SP metadata with parts removed. " +
 		"oracle: no panic; response family: err != nil iff assertion == nil, error is *InvalidResponseError with Error() == \"Authentication failed\"; deflated input > 10 MiB is refused (and NewIdpAuthnRequest returns no request holding more than that); cumulative allocation (TotalAlloc delta) per call below 32 MiB + 8000 x (input + inflated) bytes, i.e. linear with 4x headroom over the ~1900 bytes/byte the round-trip validator needs on element-dense input. " +
 		"non-trivial: the input reaches past the first parse guard (always for resign / encplain / idp / metadata / artifact; for bytes: not rejected at base64 decoding). distinct: sha256 of the JSON case.",
 	Gen:   gen,
